@@ -68,7 +68,8 @@ package olla
 //@   requires w != nil
 //@   requires resp != nil && resp.Body != nil
 //@   requires rlog != nil
-//@   modifies ghost(w).started, ghost(w).status, gvar unflushed, gvar evBroken, ghost remaining, ghost backing
+//@   modifies ghost(w).started, ghost(w).status, gvar unflushed, gvar evBroken, gvar streamMode, ghost remaining, ghost backing
+//@   loop 1 invariant isStreaming == streamMode
 //@   loop 1 invariant (old(ghost(w).started) ==> ghost(w).started) && (old(evBroken) ==> evBroken) && state != nil && fresh(state) && rc != nil && readDeadline != nil
 //@   loop 1 invariant isStreaming ==> unflushed == 0 || unflushed == old(unflushed) || evBroken
 //@   ensures old(ghost(w).started) ==> ghost(w).started
